@@ -56,6 +56,37 @@ void printfTime(const char *fmt, ...) {
 #endif
 #endif
 
+#ifdef SVT_AV1_VERIF
+/* Verification hook H1 (add-only, compiled only with -DSVT_AV1_VERIF): seeded schedule perturbation.
+   When the environment variable SVT_VERIF_SCHED holds a non-zero seed, every mutex / semaphore wrapper
+   below occasionally yields or sleeps for a few microseconds before and after the operation, so that
+   different seeds drive the library through different thread interleavings. Without the variable the
+   hook does nothing. */
+#include <sched.h>
+static int svt_verif_sched_seed = -1;
+static __thread unsigned svt_verif_sched_state = 0;
+static void svt_verif_sched_point(void) {
+    if (svt_verif_sched_seed < 0) {
+        const char *e = getenv("SVT_VERIF_SCHED");
+        svt_verif_sched_seed = e ? atoi(e) : 0;
+    }
+    if (svt_verif_sched_seed == 0)
+        return;
+    if (svt_verif_sched_state == 0)
+        svt_verif_sched_state = (unsigned)svt_verif_sched_seed * 2654435761u ^ (unsigned)(uintptr_t)&svt_verif_sched_state;
+    unsigned x = svt_verif_sched_state;
+    x ^= x << 13; x ^= x >> 17; x ^= x << 5;
+    svt_verif_sched_state = x ? x : 1;
+    if ((x & 15) == 0)
+        sched_yield();
+    else if ((x & 255) == 1)
+        usleep(1 + ((x >> 8) & 127));
+}
+#define SVT_VERIF_SCHED_POINT() svt_verif_sched_point()
+#else
+#define SVT_VERIF_SCHED_POINT() ((void)0)
+#endif
+
 /****************************************
  * svt_create_thread
  ****************************************/
@@ -215,6 +246,7 @@ EbHandle svt_create_semaphore(uint32_t initial_count, uint32_t max_count) {
  ***************************************/
 EbErrorType svt_post_semaphore(EbHandle semaphore_handle) {
     EbErrorType return_error;
+    SVT_VERIF_SCHED_POINT();
 
 #ifdef _WIN32
     return_error = !ReleaseSemaphore(semaphore_handle, // semaphore handle
@@ -238,6 +270,7 @@ EbErrorType svt_post_semaphore(EbHandle semaphore_handle) {
  ***************************************/
 EbErrorType svt_block_on_semaphore(EbHandle semaphore_handle) {
     EbErrorType return_error;
+    SVT_VERIF_SCHED_POINT();
 
 #ifdef _WIN32
     return_error = WaitForSingleObject((HANDLE)semaphore_handle, INFINITE)
@@ -306,6 +339,7 @@ EbHandle svt_create_mutex(void) {
  ***************************************/
 EbErrorType svt_release_mutex(EbHandle mutex_handle) {
     EbErrorType return_error;
+    SVT_VERIF_SCHED_POINT();
 
 #ifdef _WIN32
     return_error = !ReleaseMutex((HANDLE)mutex_handle) ? EB_ErrorMutexUnresponsive : EB_ErrorNone;
@@ -322,6 +356,7 @@ EbErrorType svt_release_mutex(EbHandle mutex_handle) {
  ***************************************/
 EbErrorType svt_block_on_mutex(EbHandle mutex_handle) {
     EbErrorType return_error;
+    SVT_VERIF_SCHED_POINT();
 
 #ifdef _WIN32
     return_error = WaitForSingleObject((HANDLE)mutex_handle, INFINITE) ? EB_ErrorMutexUnresponsive
